@@ -1380,3 +1380,72 @@ M("benign-reset-len-check", "ALL", "", "threading.py",
   "            if self._waiters:\n                msg = (\n                    \"Cannot reset lock", "            if len(self._waiters) > 0:\n                msg = (\n                    \"Cannot reset lock", expect="silent")
 M("benign-close-logs-before-stop", "ALL", "", "state.py",
   "    def close(self):\n        self.stop_checkpointing()", "    def close(self):\n        logger.debug(\"closing execution state\")\n        self.stop_checkpointing()", expect="silent")
+
+# ----------------------------------------------------------------------------- round 5
+M("c09-replay-locals-carry-over", "C09", "R1.replay-item-carries-own-outcome", "concurrency/executor.py",
+  """        items: list[BatchItem[ResultType]] = []
+        for executable in self.executables:
+            operation_id = executor_context._create_step_id_for_logical_step(  # noqa: SLF001
+                executable.index
+            )
+            checkpoint = execution_state.get_checkpoint_result(operation_id)
+
+            result: ResultType | None = None
+            error = None
+            status: BatchItemStatus
+""", """        items: list[BatchItem[ResultType]] = []
+        result: ResultType | None = None
+        error = None
+        for executable in self.executables:
+            operation_id = executor_context._create_step_id_for_logical_step(  # noqa: SLF001
+                executable.index
+            )
+            checkpoint = execution_state.get_checkpoint_result(operation_id)
+
+            status: BatchItemStatus
+""")
+M("c05-size-estimate-from-parts", "C05", "R4.size-is-serialized-wire-form", "state.py",
+  """        serialized = json.dumps(queued_op.operation_update.to_dict()).encode("utf-8")
+        return len(serialized)""",
+  """        wire = queued_op.operation_update.to_dict()
+        payload = wire.pop("Payload", None) or ""
+        return len(json.dumps(wire).encode("utf-8")) + len(payload.encode("utf-8")) + 15""")
+M("c02-summarised-context-returns-record", "C02", "R2.summarised-context-is-rebuilt", "operation/child.py",
+  "            and not checkpointed_result.is_replay_children()", "            and (not checkpointed_result.is_replay_children() or not checkpointed_result.result)")
+M2("c06-page-fetch-outside-handler", "C06", "R1.handler-covers-every-service-call", [
+    {"file": "state.py", "old": """                    # Update local token for next iteration
+                    current_checkpoint_token = output.checkpoint_token
+
+                    # Fetch new operations from the API before unblocking sync waiters
+                    self.fetch_paginated_operations(
+                        output.new_execution_state.operations,
+                        output.checkpoint_token,
+                        output.new_execution_state.next_marker,
+                    )
+
+                    # Signal completion for any synchronous operations
+                    for queued_op in batch:
+                        if queued_op.completion_event is not None:
+                            queued_op.completion_event.set()
+                except Exception as e:""", "new": """                    # Update local token for next iteration
+                    current_checkpoint_token = output.checkpoint_token
+                except Exception as e:"""},
+    {"file": "state.py", "old": """                    # Exit the loop - error has been signaled to main thread via completion events
+                    break
+""", "new": """                    # Exit the loop - error has been signaled to main thread via completion events
+                    break
+                self.fetch_paginated_operations(
+                    output.new_execution_state.operations,
+                    output.checkpoint_token,
+                    output.new_execution_state.next_marker,
+                )
+                for queued_op in batch:
+                    if queued_op.completion_event is not None:
+                        queued_op.completion_event.set()
+"""}])
+M("benign-size-via-local-and-ascii-len", "ALL", "", "state.py",
+  """        serialized = json.dumps(queued_op.operation_update.to_dict()).encode("utf-8")
+        return len(serialized)""",
+  """        wire = queued_op.operation_update.to_dict()
+        text = json.dumps(wire)
+        return len(text)""", expect="silent")
